@@ -513,10 +513,11 @@ fn fam_auth(r: &mut Rng) -> Result<(), String> {
         if dump(&deps.storage) != before { return Err(format!("{name} while halted changed storage")); }
     }
     // resume: monitor cannot, admin sets exactly the totals
-    let (a, b, c) = (Uint128::new(r.amount()), Uint128::new(r.amount()), Uint128::new(r.amount()));
+    let (a, mut b, c) = (Uint128::new(r.amount()), Uint128::new(r.amount()), Uint128::new(r.amount()));
+    if r.next() % 4 == 0 { b = Uint128::zero(); }   // resuming with no LST outstanding (e.g. after a complete exit)
     let rm = ExecuteMsg::ResumeContract { total_native_token: a, total_liquid_stake_token: b, total_reward_amount: c };
     if execute(deps.as_mut(), mock_env(), mock_info(USER2, &[]), rm.clone()).is_ok() { return Err("ResumeContract succeeded for a monitor".into()); }
-    if a.u128() <= 1000 * b.u128() && b.u128() <= 1000 * a.u128() {
+    if b.is_zero() || (a.u128() <= 1000 * b.u128() && b.u128() <= 1000 * a.u128()) {
         let resp = execute(deps.as_mut(), mock_env(), mock_info(ADMIN, &[]), rm).map_err(|e| format!("ResumeContract refused for the admin: {e}"))?;
         check_oracle(&s, &decode(&resp), &deps).map_err(|e| format!("{e} (ResumeContract to {a}/{b}); scenario {s:?}"))?;
         check_state_query(&deps).map_err(|e| format!("{e} (after ResumeContract); scenario {s:?}"))?;
